@@ -4,20 +4,20 @@ namespace Godi.Conc
 
 /-- the thread is inside the body of `S.Close` (it won the CAS and has not signalled yet) -/
 def Pc.winS : Pc → Nat
-  | .cCancel _ | .cTake _ | .cKids _ _ | .cTakeD _ | .cDrain _ _ | .cDetS _ | .cNil _ | .cErr _ | .cSig _ => 1
+  | .cCancel _ _ | .cTake _ | .cKids _ _ | .cTakeD _ | .cDrain _ _ | .cDetS _ | .cNil _ | .cErr _ | .cSig _ => 1
   | .kCas _ k | .kWait _ k | .kDetP _ k | .kDetS _ k | .kSig _ k => b2n k.inS
   | _ => 0
 
 /-- the thread is inside the body of `provider.Close` -/
 def Pc.winP : Pc → Nat
   | .pTake | .pScopes _ | .pRest => 1
-  | .cCas k | .cWait k | .cCancel k | .cTake k | .cKids _ k | .cTakeD k | .cDrain _ k | .cDetS k | .cNil k | .cErr k | .cSig k => b2n k.inP
+  | .cCas k | .cWait k | .cCancel _ k | .cTake k | .cKids _ k | .cTakeD k | .cDrain _ k | .cDetS k | .cNil k | .cErr k | .cSig k => b2n k.inP
   | .kCas _ k | .kWait _ k | .kDetP _ k | .kDetS _ k | .kSig _ k => b2n k.inP
   | _ => 0
 
 /-- `S.children` has been taken -/
 def Pc.afterTake : Pc → Bool
-  | .cKids _ _ | .cTakeD _ | .cDrain _ _ | .cDetS _ | .cNil _ | .cErr _ | .cSig _ => true
+  | .cCancel _ _ | .cKids _ _ | .cTakeD _ | .cDrain _ _ | .cDetS _ | .cNil _ | .cErr _ | .cSig _ => true
   | .kCas _ k | .kWait _ k | .kDetP _ k | .kDetS _ k | .kSig _ k => k.inS
   | _ => false
 /-- `S.disposables` has been taken -/
@@ -31,6 +31,14 @@ def Pc.afterNil : Pc → Bool
 /-- `S.closeErr` has been written -/
 def Pc.afterErr : Pc → Bool
   | .cSig _ => true
+  | _ => false
+/-- the thread has seen the singleton table empty -/
+def Pc.sawCleared : Pc → Bool
+  | .gMiss1 | .gMiss2 => true
+  | _ => false
+/-- the thread returned `ErrSingletonNotInitialized` -/
+def Pc.isNotInit : Pc → Bool
+  | .done r => r.isNI
   | _ => false
 /-- the thread has seen `disposed = 1` -/
 def Pc.sawDisposed : Pc → Bool
@@ -48,6 +56,8 @@ structure Gate (s : Sys) : Prop where
   nil : ∀ th ∈ s.thr, th.pc.afterNil = true → s.sh.cache = none
   err : ∀ th ∈ s.thr, th.pc.afterErr = true → s.sh.errSet = true
   saw : ∀ th ∈ s.thr, th.pc.sawDisposed = true → s.sh.disposed = true
+  miss : ∀ th ∈ s.thr, th.pc.sawCleared = true → s.sh.pdisposed = true
+  noNotInit : ∀ th ∈ s.thr, th.pc.isNotInit = false
   sig : s.sh.closedSig = true → s.sh.children = none ∧ s.sh.disposables = none ∧ s.sh.cache = none ∧ s.sh.errSet = true
   dCache : s.sh.cache = none → s.sh.disposed = true
   dDisp : s.sh.disposables = none → s.sh.disposed = true
@@ -81,7 +91,7 @@ theorem act_stable {c : Cfg} {s s' : Sh} {pc pc' : Pc} {sp : List Pc}
     (s.children = none → s'.children = none) ∧ (s.cache = none → s'.cache = none) ∧
     (s.disposed = true → s'.disposed = true) ∧ (s.closedSig = true → s'.closedSig = true) ∧
     (s.disposables = none → s.disposed = true → s'.disposables = none) ∧
-    (s.errSet = true → s'.errSet = true) := by
+    (s.errSet = true → s'.errSet = true) ∧ (s.pdisposed = true → s'.pdisposed = true) := by
   cases pc <;> act_cases h
   all_goals (first
     | (simp_all; done)
@@ -111,6 +121,9 @@ structure GateLocal (s : Sh) (pc : Pc) : Prop where
   nil : pc.afterNil = true → s.cache = none
   err : pc.afterErr = true → s.errSet = true
   saw : pc.sawDisposed = true → s.disposed = true
+  miss : pc.sawCleared = true → s.pdisposed = true
+  notInit : pc.isNotInit = false
+  pSingle : s.singletons = false → s.pdisposed = true
   win : 0 < pc.winS → s.disposed = true ∧ s.closedSig = false
 
 theorem act_gate_local {c : Cfg} {s s' : Sh} {pc pc' : Pc} {sp : List Pc}
@@ -118,12 +131,13 @@ theorem act_gate_local {c : Cfg} {s s' : Sh} {pc pc' : Pc} {sp : List Pc}
     (pc'.afterTake = true → s'.children = none) ∧ (pc'.afterTakeD = true → s'.disposables = none) ∧
     (pc'.afterNil = true → s'.cache = none) ∧ (pc'.sawDisposed = true → s'.disposed = true) ∧
     (∀ p ∈ sp, p.afterTake = false ∧ p.afterTakeD = false ∧ p.afterNil = false ∧ p.sawDisposed = false ∧
-      p.afterErr = false) ∧
-    (pc'.afterErr = true → s'.errSet = true) := by
-  obtain ⟨l1, l2, l3, l6, l4, l5⟩ := l
+      p.afterErr = false ∧ p.sawCleared = false ∧ p.isNotInit = false) ∧
+    (pc'.afterErr = true → s'.errSet = true) ∧
+    (pc'.sawCleared = true → s'.pdisposed = true) ∧ pc'.isNotInit = false := by
+  obtain ⟨l1, l2, l3, l6, l4, l7, l8, l9, l5⟩ := l
   cases pc <;> act_cases h
   all_goals (first
-    | (simp_all [Pc.winS, Pc.wf, Pc.sawDisposed, Pc.afterTake, Pc.afterTakeD, Pc.afterNil, Pc.afterErr, K.inS, K.top, K.wf]; done))
+    | (simp_all [Pc.winS, Pc.wf, Pc.sawDisposed, Pc.afterTake, Pc.afterTakeD, Pc.afterNil, Pc.afterErr, Pc.sawCleared, Pc.isNotInit, Res.isNI, K.inS, K.top, K.wf]; done))
 
 
 theorem act_gate_tables {c : Cfg} {s s' : Sh} {pc pc' : Pc} {sp : List Pc}
@@ -134,10 +148,10 @@ theorem act_gate_tables {c : Cfg} {s s' : Sh} {pc pc' : Pc} {sp : List Pc}
     (s'.closedSig = true → s'.children = none ∧ s'.disposables = none ∧ s'.cache = none ∧ s'.errSet = true) ∧
     (s'.cache = none → s'.disposed = true) ∧ (s'.disposables = none → s'.disposed = true) ∧
     (s'.children = none → s'.disposed = true) ∧ s'.panicked = false ∧ s'.resurrected = false := by
-  obtain ⟨l1, l2, l3, l6, l4, l5⟩ := l
+  obtain ⟨l1, l2, l3, l6, l4, l7, l8, l9, l5⟩ := l
   cases pc <;> act_cases h
   all_goals (first
-    | (simp_all [Pc.winS, Pc.wf, Pc.sawDisposed, Pc.afterTake, Pc.afterTakeD, Pc.afterNil, Pc.afterErr, K.inS, K.top, K.wf]; done)
+    | (simp_all [Pc.winS, Pc.wf, Pc.sawDisposed, Pc.afterTake, Pc.afterTakeD, Pc.afterNil, Pc.afterErr, Pc.sawCleared, Pc.isNotInit, Res.isNI, K.inS, K.top, K.wf]; done)
     | (cases hd : s.disposables <;> simp_all; done)
     | (simp_all [Option.isSome_iff_ne_none]; done))
 
@@ -155,7 +169,8 @@ theorem act_gate_p {c : Cfg} {s s' : Sh} {pc pc' : Pc} {sp : List Pc}
 
 
 theorem Gate.local {s : Sys} (inv : Gate s) {th : Thr} (hmem : th ∈ s.thr) : GateLocal s.sh th.pc := by
-  refine ⟨inv.take th hmem, inv.takeD th hmem, inv.nil th hmem, inv.err th hmem, inv.saw th hmem, ?_⟩
+  refine ⟨inv.take th hmem, inv.takeD th hmem, inv.nil th hmem, inv.err th hmem, inv.saw th hmem, inv.miss th hmem,
+    inv.noNotInit th hmem, inv.pSingle, ?_⟩
   intro hpos
   have h1 := inv.win
   have h2 := le_tot (m := winS) hmem
@@ -176,12 +191,12 @@ theorem Gate.step {s s' : Sys} (wf : WfSys s) (inv : Gate s) (st : Step s s') : 
   have hpp := act_gate_p hact np (by have := inv.pwin; simp only [winP] at hp1; omega) inv.pScopes inv.pSingle
   -- the per-thread clauses: an old thread (stability), the acting thread, a spawned thread
   have spawned : ∀ x ∈ spawn sp, x.pc.afterTake = false ∧ x.pc.afterTakeD = false ∧ x.pc.afterNil = false ∧
-      x.pc.sawDisposed = false ∧ x.pc.afterErr = false := by
+      x.pc.sawDisposed = false ∧ x.pc.afterErr = false ∧ x.pc.sawCleared = false ∧ x.pc.isNotInit = false := by
     intro x hxs
     simp only [spawn, List.mem_map] at hxs
     obtain ⟨p, hp, rfl⟩ := hxs
     exact hloc.2.2.2.2.1 p hp
-  refine ⟨?_, hwin.2, ?_, ?_, ?_, ?_, ?_, htab.1, htab.2.1, htab.2.2.1, htab.2.2.2.1, htab.2.2.2.2.1, htab.2.2.2.2.2,
+  refine ⟨?_, hwin.2, ?_, ?_, ?_, ?_, ?_, ?_, ?_, htab.1, htab.2.1, htab.2.2.1, htab.2.2.2.1, htab.2.2.2.2.1, htab.2.2.2.2.2,
     ?_, hpp.2.1, hpp.2.2⟩
   · simp only [winS] at hn2 ⊢; have := hwin.1; omega
   · intro x hxm hf
@@ -202,36 +217,48 @@ theorem Gate.step {s s' : Sys} (wf : WfSys s) (inv : Gate s) (st : Step s s') : 
     · simp [(spawned x h).2.2.1] at hf
   · intro x hxm hf
     rcases hx x hxm with h | rfl | h
-    · exact stab.2.2.2.2.2 (inv.err x h hf)
-    · exact hloc.2.2.2.2.2 hf
-    · simp [(spawned x h).2.2.2.2] at hf
+    · exact stab.2.2.2.2.2.1 (inv.err x h hf)
+    · exact hloc.2.2.2.2.2.1 hf
+    · simp [(spawned x h).2.2.2.2.1] at hf
   · intro x hxm hf
     rcases hx x hxm with h | rfl | h
     · exact stab.2.2.1 (inv.saw x h hf)
     · exact hloc.2.2.2.1 hf
     · simp [(spawned x h).2.2.2.1] at hf
+  · intro x hxm hf
+    rcases hx x hxm with h | rfl | h
+    · exact stab.2.2.2.2.2.2 (inv.miss x h hf)
+    · exact hloc.2.2.2.2.2.2.1 hf
+    · simp [(spawned x h).2.2.2.2.2.1] at hf
+  · intro x hxm
+    rcases hx x hxm with h | rfl | h
+    · exact inv.noNotInit x h
+    · exact hloc.2.2.2.2.2.2.2
+    · exact (spawned x h).2.2.2.2.2.2
   · simp only [winP] at hp2 ⊢; have := hpp.1; omega
 
 theorem initial_flags {pc : Pc} (h : pc.initial = true) :
     pc.winS = 0 ∧ pc.winP = 0 ∧ pc.afterTake = false ∧ pc.afterTakeD = false ∧ pc.afterNil = false ∧
-    pc.sawDisposed = false ∧ pc.afterErr = false := by
+    pc.sawDisposed = false ∧ pc.afterErr = false ∧ pc.sawCleared = false ∧ pc.isNotInit = false := by
   cases pc with
-  | rChk k o => cases o <;> simp_all [Pc.initial, Pc.winS, Pc.winP, Pc.afterTake, Pc.afterTakeD, Pc.afterNil, Pc.sawDisposed, Pc.afterErr]
+  | rChk k o => cases o <;> simp_all [Pc.initial, Pc.winS, Pc.winP, Pc.afterTake, Pc.afterTakeD, Pc.afterNil, Pc.sawDisposed, Pc.afterErr, Pc.sawCleared, Pc.isNotInit, Res.isNI]
   | cCas k =>
     cases k with
-    | ret r => cases r <;> simp_all [Pc.initial, Pc.winS, Pc.winP, Pc.afterTake, Pc.afterTakeD, Pc.afterNil, Pc.sawDisposed, Pc.afterErr, K.inP]
+    | ret r => cases r <;> simp_all [Pc.initial, Pc.winS, Pc.winP, Pc.afterTake, Pc.afterTakeD, Pc.afterNil, Pc.sawDisposed, Pc.afterErr, Pc.sawCleared, Pc.isNotInit, Res.isNI, K.inP]
     | _ => simp_all [Pc.initial]
-  | _ => simp_all [Pc.initial, Pc.winS, Pc.winP, Pc.afterTake, Pc.afterTakeD, Pc.afterNil, Pc.sawDisposed, Pc.afterErr]
+  | _ => simp_all [Pc.initial, Pc.winS, Pc.winP, Pc.afterTake, Pc.afterTakeD, Pc.afterNil, Pc.sawDisposed, Pc.afterErr, Pc.sawCleared, Pc.isNotInit, Res.isNI]
 
 theorem Gate.init (thr : List Thr) (h : ∀ th ∈ thr, th.pc.initial = true) : Gate (init thr) := by
   have z1 : tot winS thr = 0 := tot_zero_of (fun t ht => (initial_flags (h t ht)).1)
   have z2 : tot winP thr = 0 := tot_zero_of (fun t ht => (initial_flags (h t ht)).2.1)
-  refine ⟨by simp [Conc.init, z1], rfl, ?_, ?_, ?_, ?_, ?_, by simp [Conc.init], by simp [Conc.init], by simp [Conc.init],
+  refine ⟨by simp [Conc.init, z1], rfl, ?_, ?_, ?_, ?_, ?_, ?_, ?_, by simp [Conc.init], by simp [Conc.init], by simp [Conc.init],
     by simp [Conc.init], rfl, rfl, by simp [Conc.init, z2], by simp [Conc.init], by simp [Conc.init]⟩
   · intro th ht hf; simp [(initial_flags (h th ht)).2.2.1] at hf
   · intro th ht hf; simp [(initial_flags (h th ht)).2.2.2.1] at hf
   · intro th ht hf; simp [(initial_flags (h th ht)).2.2.2.2.1] at hf
-  · intro th ht hf; simp [(initial_flags (h th ht)).2.2.2.2.2.2] at hf
+  · intro th ht hf; simp [(initial_flags (h th ht)).2.2.2.2.2.2.1] at hf
   · intro th ht hf; simp [(initial_flags (h th ht)).2.2.2.2.2.1] at hf
+  · intro th ht hf; simp [(initial_flags (h th ht)).2.2.2.2.2.2.2.1] at hf
+  · intro th ht; exact (initial_flags (h th ht)).2.2.2.2.2.2.2.2
 
 end Godi.Conc
